@@ -12,11 +12,11 @@ T = {
         "small-scope exhaustive enumeration against a closed-form oracle"),
 "C03": ("Every engine against Naive: every truncated_size of every power-of-two size up to 2^10 (2^12), every size class up to 2^16 at 6 truncated sizes, 8 skew offsets, 2 positions, 1-3 and 65/130/257 blocks; every log_m for mul; indicator families for eval_poly; encode + every exactly-k received-set end to end; guard shards unchanged.",
         "small-scope exhaustive enumeration of primitive arguments, differential between engines"),
-"C04": ("Every even shard size 2..132 (thorough ..260) plus big sizes (1022..131138 bytes, values that do not fit 16 bits, block counts with remainders), configurations on the edge of the envelope with short final blocks, and calls carrying several MiB: lengths, slots re-coded alone as 2-byte shards, G*data with the documented byte placement, decode patterns; soiled working space puts stale bytes into unused lanes.",
+"C04": ("Every even shard size 2..132 (thorough ..260) plus big sizes (1022..131138 bytes, values that do not fit 16 bits, block counts with remainders), configurations on the edge of the envelope with short final blocks, every single missing original of mid-size configurations, and calls carrying several MiB: lengths, slots re-coded alone as 2-byte shards, G*data with the documented byte placement, decode patterns; soiled working space puts stale bytes into unused lanes.",
         "small-scope exhaustive enumeration with self-differential and closed-form oracles"),
-"C05": ("Every sequence of d<=2 (thorough 3) rounds on one object over 11 colliding configurations x {reset, implicit reset, recycle into high/low/default} x {completed, abandoned} earlier rounds x {fresh, soiled} start, plus all d=3 sequences over a reduced 7-member alphabet in the quick tier, and every supported sequence of 2 (3) rounds over a second alphabet of mid-size and whole-field configurations; last round compared with a fresh object and with the reference.",
+"C05": ("Every sequence of d<=2 (thorough 3) rounds on one object over 11 colliding configurations x {reset, implicit reset, recycle into high/low/default} x {completed, abandoned} earlier rounds x {fresh, soiled} start, plus all d=3 sequences over a reduced 7-member alphabet in the quick tier, every supported sequence of 2 (3) rounds over a second alphabet of mid-size and whole-field configurations, and for decoders every pair of received-set shapes (incl. mirrored ones whose bitmaps coincide across rates); last round compared with a fresh object and with the reference.",
         "explicit-state enumeration of round histories on the real objects, differential against a fresh object"),
-"C06": ("Breadth-first search over call histories (depth 4, thorough 6; repeated without state merging to depth 3 / 4) on all 8 codec types from 4 start configurations (+ a start with more than 1 MiB of working space, + a configuration whose two rate layouts differ in size), argument alphabet incl. hand-over of the working space to every other codec kind, with 0, off-by-one, usize::MAX and wrap-around indexes, wrong lengths, several violations at once; every observation must be in the reference model's set of truthful outcomes; checked build (overflow checks on).",
+"C06": ("Breadth-first search over call histories (depth 4, thorough 6; repeated without state merging to depth 3 / 4) on all 8 codec types from 4 start configurations (+ a start with more than 1 MiB of working space, + a configuration whose two rate layouts differ in size), argument alphabet incl. hand-over of the working space to every other codec kind, with 0, off-by-one, usize::MAX and wrap-around indexes, wrong lengths, several violations at once; every observation must be in the reference model's set of truthful outcomes; the one-shot functions over 26 000 argument tuples; checked build (overflow checks on).",
         "explicit-state BFS of API histories against a reference model, exact state merging plus an unmerged pass"),
 "C07": ("Twin runs: for every merged history h (depth<=2, thorough 3), every failing call f enabled after h and every continuation c (depth<=1, thorough 2, completed to a full round) the observations after h++[f]++c equal those after h++c call for call.",
         "explicit-state enumeration of histories with differential twin runs"),
@@ -24,11 +24,11 @@ T = {
         "whole-domain enumeration"),
 "C09": ("Default-rate encoder/decoder, ReedSolomonEncoder/Decoder and one-shot functions against the dedicated codec selected by the rule for every (k,r) in [1..40]^2 (thorough [1..130]^2 + power-of-two neighbours), a grid up to 4097 (8193), on generator-revealing data, also with short final blocks, long shards and 1-2 MiB shards through every layer; every sequence of up to 3 resets over a 9-member alphabet straddling the rule, each also with rejected resets interleaved.",
         "small-scope exhaustive enumeration + reset-history enumeration, differential between API layers"),
-"C10": ("Every argument tuple of encode()/decode() over 8 count pairs and all original/recovery lists up to the length bound over (index alphabet) x (5 shard classes), compared with the equivalent streaming sequence and with the set of truthful errors; every ordered pair of calls from a reduced alphabet on one fresh thread (the second call must behave like a first).",
+"C10": ("Every argument tuple of encode()/decode() over 8 count pairs and all original/recovery lists up to the length bound over (index alphabet) x (5 shard classes), compared with the equivalent streaming sequence and with the set of truthful errors; unsupported count pairs (also inside 1..65536 with a sum of at most 65536) with complete valid input; every ordered pair of calls from a reduced alphabet on one fresh thread (the second call must behave like a first).",
         "small-scope exhaustive enumeration of argument tuples and call pairs, differential against the streaming API"),
 "C11": ("Explicit-state search of the received-set lattice with concrete-state merging: every order of every subset for all (k,r) with k+r<=7 (thorough 10); every state with >= k shards decoded; unmerged cross-checks: all permutations for k+r<=5 (6) and every ordered k- and (k+1)-tuple of shards for skewed configurations such as (3,8), (2,12), (3,17).",
         "explicit-state search with exact state merging, plus unmerged order enumeration"),
-"C12": ("Accessor contracts (index arguments to usize::MAX, iterator order and exhaustion) after every encode and in every decodable received-set for k+r<=5 (7), for every single missing original of mid-size configurations, every ordered pair (triple) of received-sets and 6 consecutive rounds on one object separated only by dropping the result, 6-round histories on configurations up to the whole field, and runs of 1100 (70000) consecutive rounds; checked build.",
+"C12": ("Accessor contracts (index arguments to usize::MAX, iterator order and exhaustion) after every encode and in every decodable received-set for k+r<=5 (7) (surplus sets in two add orders), for every single missing original of mid-size configurations, every ordered pair (triple) of received-sets and 6 consecutive rounds on one object separated only by dropping the result, 6-round histories on configurations up to the whole field, and runs of 1100 (70000) consecutive rounds; checked build.",
         "explicit-state enumeration of result states and round sequences"),
 "C13": ("Oracle-free: zero, every symbol value on every coordinate axis, every weight<=3 combination of basis vectors, every field constant times basis vectors, dense pairs; [1..5]^2 (thorough [1..9]^2 + (33,3),(3,33)) x {high,low} x 5 engines.",
         "small-scope exhaustive enumeration of linear relations (oracle-free)"),
@@ -38,7 +38,7 @@ T = {
         "whole-domain / small-scope exhaustive enumeration against definitions"),
 "C16": ("Repository source re-targeted onto shuttle; own iterative-context-bounding DFS scheduler: every schedule of the 2-thread scenarios and every schedule with <=2 (3) preemptions of the 3-thread and hand-over scenarios; each execution compared thread by thread (different data and erasure pattern per thread) with sequential use; deadlocks and panics reported; first use of every table family races in every execution, also two threads on the same table; the port adds scheduling points at reference counting and after atomic writes; available_parallelism is answered by the harness (2).",
         "controlled-scheduler exploration of thread interleavings (bounded-preemption DFS, real code)"),
-"C17": ("Counting global allocator; every history of <=2 (3) steps over {round, abandoned round, reset, recycle into high/low/default} after the object holds the maximum, for three families (32 KiB shards, 512 KiB shards / multi-MiB working space, thousands of shards), executed at two scales (shard sizes doubled / counts doubled): bytes allocated in the measured region must not grow with scale; positive control in every run.",
+"C17": ("Counting global allocator; every history of <=2 (3) steps over {round, abandoned round, reset, recycle into high/low/default} after the object holds the maximum, for four families (32 KiB shards, 512 KiB shards / multi-MiB working space, thousands of shards, equal block counts with and without a short final block after a warm-up with the layout-dominant member only), executed at two scales (shard sizes doubled / counts doubled): bytes allocated in the measured region must not grow with scale; positive control in every run.",
         "explicit-state enumeration of histories with an allocation monitor, scale-differential"),
 }
 N = {
@@ -58,7 +58,7 @@ N = {
 "C14": "Mask can only hide features this CPU has; trace points sit in every existing target_feature entry point (a new untraced entry point would be invisible, reported as machinery error when nothing is traced).",
 "C15": "fft/ifft beyond n=10 only at decoder shapes and sampled output points; not all 2^65536 indicator vectors (structured families + linearity in the indicator).",
 "C16": "Scheduling points = shuttle sync/thread/lazy operations; sequentially consistent; unsynchronised accesses (static mut, UnsafeCell) have no scheduling point of their own (the window after an atomic write has one); std's LazyLock modelled by shuttle's blocking Once.",
-"C17": "Allocation on the measuring thread only; criterion is growth with scale, so constant allocations are never reported.",
+"C17": "Allocation on the measuring thread only; criterion is growth with scale, so constant allocations are never reported. The block-count family takes the need of a configuration from the documented layout (positions x ceil(bytes/64)).",
 }
 checks = []
 for p in props:
